@@ -1,5 +1,7 @@
 import BigtreeModel.Plot
 import BigtreeProofs.Lemmas.Plot
+import BigtreeProofs.Lemmas.PlotContourPass
+import BigtreeProofs.Lemmas.PlotContourClass
 /-!
 # C19 — Reingold–Tilford coordinates form a tidy, non-overlapping drawing
 
@@ -19,6 +21,12 @@ the sibling clause fails (lay out, append a fresh child, lay out again).
 The remaining clause of the statement — any two nodes of one depth are at least
 `min sibling_separation subtree_separation` apart in their left-to-right order — is kept as
 `RT_full` and is **false** of the code (known finding K1): `rt_full_false`.
+It is proved on the class `ChainExact` of trees on which every sibling-pair comparison of
+`_get_subtree_shift` is exact (`rt_cousins_partial`, `rt_order_partial`; the class contains every tree
+with at most three levels, `rt_cousins_depth3`, and every complete binary tree,
+`rt_cousins_complete_binary`). The two conditions of the class name the two independent reasons why
+the clause fails outside it: the K1 tree violates the *scaling* condition only (`k1_outside`), the
+14-node tree `chainTree` violates the *walk* condition only (`chain_outside`, `chain_fails`).
 -/
 
 namespace C19
@@ -166,5 +174,122 @@ theorem rt_full_false : ¬ RT_full := by
     (by decide +kernel) (by decide +kernel) 4
   revert this
   decide +kernel
+
+/-! ### the cousin clause on the class where the sibling-pair comparison is exact
+
+`ST.ChainExact t` (`BigtreeModel/Plot.lean`, decidable, a condition on the shape only): in every sibling
+group `c₀ … c_k`
+
+* for every `j ≥ 1` the walk of `_get_subtree_shift` down the right side of `c₀` (last child; if that is
+  a leaf, its nearest left sibling with children; last child; …) and the walk down the left side of
+  `c_j` both reach at least `min (height c₀) (height c_j)` levels — so the walked nodes are the true
+  contours on every level the two subtrees share;
+* for `0 < i < j` one of `c_i`, `c_j` has at most two levels, so that only one level is compared (from
+  the second compared level on `_get_subtree_shift` under-estimates the need for `left_idx > 0`,
+  because it accumulates the shift already divided by `1 - left_idx/right_idx`).
+
+Both separations must be positive; no order between them is needed (the bound is their minimum). -/
+
+/-- **cousins (partial)**: on a tree of the class, any two nodes of one depth are at least
+    `min sibling_separation subtree_separation` apart, in their left-to-right tree order — for every
+    entry state and every positive pair of separations. -/
+theorem rt_cousins_partial (P : Params) (t : ST) (hsib : 0 < P.sib) (hsub : 0 < P.sub) (h : t.ChainExact) :
+    ∀ d : Nat, ((layoutS P t).level d).Pairwise (fun a b => a.x + min P.sib P.sub ≤ b.x) := by
+  intro d
+  have hm : 0 ≤ min P.sib P.sub := by grind
+  have h1 : min P.sib P.sub ≤ P.sib := by grind
+  have h2 : min P.sib P.sub ≤ P.sub := by grind
+  exact passes_level_sorted P hm h1 h2 t.clear (by rw [clear_sk]; exact h) (clear_mono t) d
+
+/-- the same for a fresh `Tree` (the form of `RT_full`, restricted to the class) -/
+theorem rt_cousins_partial_fresh (P : Params) (t : Tree) (hsib : 0 < P.sib) (hsub : 0 < P.sub)
+    (h : ChainExact t) :
+    ∀ d : Nat, ((layout P t).level d).Pairwise (fun a b => a.x + min P.sib P.sub ≤ b.x) :=
+  rt_cousins_partial P (ST.ofTree t) hsib hsub h
+
+/-- **order (partial)**: on a tree of the class the nodes of one depth have strictly increasing `x`
+    in their left-to-right tree order. -/
+theorem rt_order_partial (P : Params) (t : ST) (hsib : 0 < P.sib) (hsub : 0 < P.sub) (h : t.ChainExact) :
+    ∀ d : Nat, ((layoutS P t).level d).Pairwise (fun a b => a.x < b.x) := by
+  intro d
+  refine (rt_cousins_partial P t hsib hsub h d).imp ?_
+  intro a b hab
+  grind
+
+/-- a tree of the class with five levels and fan-out three:
+    `r(A(l, l, u(l, v(l, l, l))), B(w(z(l, l), l, l)), l)` -/
+def deepTree : Tree :=
+  nd [nd [lf, lf, nd [lf, nd [lf, lf, lf]]], nd [nd [nd [lf, lf], lf, lf]], lf]
+
+-- non-vacuity: the hypothesis holds of a tree with five levels, fan-out 3 and two deep facing subtrees,
+-- under unequal separations in both orders; the fifth level has five nodes from two different subtrees
+-- (exactly `subtree_separation` apart where the subtrees meet)
+example : ChainExact deepTree := by decide
+example : ((ST.ofTree deepTree).sk.height, (layout oddP deepTree).subtrees.length) = (5, 18) := by
+  decide +kernel
+example : ((layout oddP deepTree).level 5).map FT.x = [13/4, 15/4, 17/4, 23/4, 25/4] := by decide +kernel
+example : ((layout { oddP with sib := 3/2, sub := 1/2 } deepTree).level 5).map FT.x
+    = [19/4, 25/4, 31/4, 33/4, 39/4] := by decide +kernel
+-- … and of a non-fresh tree (stored shifts 0, 2, 4 on the children of the root)
+example : abcStored.ChainExact := by decide +kernel
+
+/-- **K1 is outside the class, by the scaling condition only**: in `r(a, b(c, d(e)), f(g(h, i)))` the
+    facing walks of every pair of children of the root are exact (`b → d → e` and `f → g → h` reach the
+    full height), but the pair `(b, f)` has indices `(1, 2)` and two levels to compare. -/
+theorem k1_outside : ¬ ChainExact k1Tree ∧
+    Sk.pairExact (ST.ofTree lf).sk (ST.ofTree (nd [lf, nd [lf]])).sk = true ∧
+    Sk.pairExact (ST.ofTree lf).sk (ST.ofTree (nd [nd [lf, lf]])).sk = true ∧
+    Sk.pairExact (ST.ofTree (nd [lf, nd [lf]])).sk (ST.ofTree (nd [nd [lf, lf]])).sk = true ∧
+    Sk.shallow (ST.ofTree (nd [lf, nd [lf]])).sk (ST.ofTree (nd [nd [lf, lf]])).sk = false := by
+  decide
+
+/-- `r(L(A(a(z)), B(b)), R(C(c(w₁, w₂, w₃, w₄))))`: the root has two children (no scaling anywhere), but
+    the right walk of `L` ends at `b` on the third level although `z` is on the fourth -/
+def chainTree : Tree :=
+  nd [nd [nd [nd [lf]], nd [lf]], nd [nd [nd [lf, lf, lf, lf]]]]
+
+/-- `chainTree` is outside the class by the walk condition only: no node has more than two
+    child-bearing children, the pair `(L, R)` has walks shorter than the common height -/
+theorem chain_outside : ¬ ChainExact chainTree ∧
+    Sk.pairExact (ST.ofTree (nd [nd [nd [lf]], nd [lf]])).sk (ST.ofTree (nd [nd [nd [lf, lf, lf, lf]]])).sk = false ∧
+    (ST.ofTree (nd [nd [nd [lf]], nd [lf]])).sk.rwalk = 3 ∧ (ST.ofTree (nd [nd [nd [lf]], nd [lf]])).sk.height = 4 := by
+  decide
+
+/-- … and the cousin clause does fail on it: `z` is at 0 and `w₁` at 1/2 under unit separations
+    (a second witness of `rt_full_false`, with the other cause) -/
+theorem chain_fails :
+    ¬ ((layout unitP chainTree).level 5).Pairwise (fun a b => a.x + min unitP.sib unitP.sub ≤ b.x) := by
+  decide +kernel
+
+example : ((layout unitP chainTree).level 5).map FT.x = [0, 1/2, 3/2, 5/2, 7/2] := by decide +kernel
+
+/-- **at most three levels**: every tree with at most three levels is in the class, so the cousin
+    clause holds for it. -/
+theorem rt_cousins_depth3 (P : Params) (t : ST) (hsib : 0 < P.sib) (hsub : 0 < P.sub)
+    (h3 : t.sk.height ≤ 3) :
+    ∀ d : Nat, ((layoutS P t).level d).Pairwise (fun a b => a.x + min P.sib P.sub ≤ b.x) :=
+  rt_cousins_partial P t hsib hsub (Sk.exact_of_height_le t.sk h3)
+
+-- non-vacuity: three levels, fan-out 4, cousins from four subtrees on the third level
+example : (ST.ofTree (nd [nd [lf, lf], lf, nd [lf, lf, lf], nd [lf]])).sk.height = 3 := by decide
+example : ((layout oddP (nd [nd [lf, lf], lf, nd [lf, lf, lf], nd [lf]])).level 3).map FT.x
+    = [5/2, 3, 25/4, 27/4, 29/4, 35/4] := by decide +kernel
+
+/-- **complete binary trees** of every height are in the class. -/
+theorem rt_cousins_complete_binary (P : Params) (n : Nat) (hsib : 0 < P.sib) (hsub : 0 < P.sub) :
+    ∀ d : Nat, ((layoutS P (Sk.toST (Sk.full 2 n))).level d).Pairwise
+      (fun a b => a.x + min P.sib P.sub ≤ b.x) :=
+  rt_cousins_partial P _ hsib hsub (by unfold ST.ChainExact; rw [toST_sk']; exact Sk.full2_exact n)
+
+example : ((layoutS oddP (Sk.toST (Sk.full 2 3))).level 4).map FT.x
+    = [5/2, 3, 9/2, 5, 13/2, 7, 17/2, 9] := by decide +kernel
+
+-- complete ternary trees: three levels are inside the class, four levels are outside (pairs (1, 2) with
+-- two compared levels) although the algorithm happens to place them correctly — the class is sufficient,
+-- not necessary
+example : (Sk.toST (Sk.full 3 2)).ChainExact := by decide
+example : ¬ (Sk.toST (Sk.full 3 3)).ChainExact := by decide
+example : ∀ d ∈ [1, 2, 3, 4, 5], ((layoutS unitP (Sk.toST (Sk.full 3 3))).level d).Pairwise
+    (fun a b => a.x + min unitP.sib unitP.sub ≤ b.x) := by decide +kernel
 
 end C19
